@@ -28,6 +28,7 @@ type faultShape struct {
 	Opt      string
 	Fallback bool
 	Dist     bool // through the distributed engine over 2 partitions
+	Big      bool // over bigFaultDataset()
 }
 
 var faultShapes = []faultShape{
@@ -63,6 +64,23 @@ var faultShapes = []faultShape{
 	// included labels on a comparison that keeps the metric name: the output label sets are built from the many side's
 	{Query: `m0 > on(a) group_left(Z) m1`},
 	{Query: `m1 < on(a) group_right(Z) m0`},
+	// scalar() loads its operand lazily (in Next, not Series) and turns "no single sample" into NaN:
+	// a failure below it must not be answered with NaN
+	{Query: `m0 * scalar(m1{a="x"})`},
+	{Query: `clamp_max(m0, scalar(sum(m1)))`},
+	{Query: `vector(scalar(m1{a="x"}))`},
+	{Query: `scalar(m1{a="x"})`},
+	{Query: `histogram_quantile(scalar(m1{a="x"}) / 100, h_bucket)`},
+	// more than 1024 series per shard (2200 series of m2 over 2 or 8 shards): size thresholds in loaders
+	// grouping lists that cover every label of an input series: the output label set equals the input's,
+	// and a label builder hands back its base slice unchanged
+	{Query: `sum by (__name__, a, b, Z) (m0)`},
+	// ... for some input series only (those without Z), followed by series that do lose a label
+	// (h_bucket{a,le} sorts before m0{a,b}: covered series first, then series that lose b)
+	{Query: `sum by (__name__, a, le) ({__name__=~"h_bucket|m0"})`},
+	{Query: `topk by (__name__, a, le) (1, {__name__=~"h_bucket|m0"})`},
+	{Query: `count_over_time(m2[1m])`, Big: true},
+	{Query: `sum(m2)`, Big: true},
 	{Query: `sum by (a) (m0)`, Dist: true},
 	{Query: `m0`, Dist: true},
 	{Query: `max(sum by (a) (m0))`, Dist: true},
@@ -124,6 +142,20 @@ func faultDataset() Dataset {
 		for k, le := range []string{"1", "5", "+Inf"} {
 			mk(map[string]string{"__name__": "h_bucket", "a": a, "le": le}, faultStart-600_000, end+60_000, float64(k+1), false)
 		}
+	}
+	d.Normalize()
+	return d
+}
+
+// bigFaultDataset: faultDataset plus 2200 series of m2 with three samples each inside the window, so
+// that a selector shard holds more than 1024 series at GOMAXPROCS 4 (2 shards: 1100 each); at 16 (8
+// shards) 275 each.
+func bigFaultDataset() Dataset {
+	d := faultDataset()
+	for i := 0; i < 2200; i++ {
+		t0 := faultStart + int64(i%30)*faultStep
+		d.Series = append(d.Series, Series{Labels: map[string]string{"__name__": "m2", "a": fmt.Sprintf("v%04d", i)},
+			Samples: []Sample{{T: t0 - 15_000, V: float64(i)}, {T: t0, V: float64(i + 1)}, {T: t0 + 15_000, V: float64(i + 2)}}})
 	}
 	d.Normalize()
 	return d
@@ -271,6 +303,24 @@ func (p *faultProp) checkHostile(c Case) Outcome {
 			o.Add("hostile:"+d.Rule, fmt.Sprintf("%s\n  engine:    %s\n  reference: %s", d.Detail, eng.Res, ref.Res))
 		}
 	}
+	// the same query through a distributed engine whose endpoint list is empty (every partition is
+	// gone) or has one member: creation and execution must come back with a value or an error; a
+	// panic on the caller's goroutine (plan construction runs outside Exec's recover) is a crash.
+	for _, n := range []int{0, 1} {
+		func() {
+			defer func() {
+				if r := recover(); r != nil {
+					o.Add("hostile:panic-escaped", fmt.Sprintf("distributed engine over %d endpoints: panic reached the caller: %v", n, r))
+				}
+			}()
+			parts := make([]storage.Queryable, n)
+			for i := range parts {
+				parts[i] = NewStore(c.Dataset, StoreOpts{})
+			}
+			RunDistributedOver(ctx, NewStore(c.Dataset, StoreOpts{}), parts, c.Engine, c.Query, c.Window, nil)
+			o.Count("hostile_distributed_endpoint_cases", 1)
+		}()
+	}
 	p.bystander(Case{Dataset: faultDataset(), Engine: c.Engine}, &o)
 	return o
 }
@@ -297,6 +347,9 @@ func (p *faultProp) Gen(seed uint64, tier string, i int) Case {
 	kind := p.kinds[slot%len(p.kinds)]
 	sh := faultShapes[shape]
 	c := Case{Prop: p.id, Kind: "fault", Seed: seed, Index: i, Query: sh.Query, Window: faultWindow(instant), Dataset: faultDataset()}
+	if sh.Big {
+		c.Dataset = bigFaultDataset()
+	}
 	c.Engine = EngineCfg{Opt: sh.Opt, Fallback: sh.Fallback, Procs: procs}
 	if p.id == "C17" {
 		c.Engine.Debug = r.P(0.25)
